@@ -18,6 +18,7 @@ const pipcPkg = "app/modules/pipelinem/pipcommands/pipc"
 func init() {
 	register(&PropDef{ID: "C15", Title: "Named resource locks: writers exclude everyone, readers share, no deadlock", Rules: rulesC15,
 		Explanation: "Decided (structural necessary conditions): R1 the acquisition loop of SharedMutex.Lock walks, in ascending order, a slice on which a sort dominates the loop with no element write in between, and the sort's comparator reads nothing but the resource name (one global order, independent of the access mode); R2 the per-name mutex is inserted only on the miss edge of a lookup made under the same write hold of the table lock (one mutex per name); R3 a row marked read (LockR) is acquired with RLock and released with RUnlock, a row marked write with Lock/Unlock — constants read from the source; R4 the pipeline runner acquires the task's lock map after it finished waiting for prerequisite tasks (no hold-and-wait), before the body, and releases it on every path; R5 pip:run passes the read list with LockR and the write list with LockRW, and the key stored for a '@'-global name does not depend on the namespace while a local name does. " +
+			"Added in round 2: R4 also requires that the scope Wait following the body lies inside the locked section (the lock map is not released before the work the body registered on its scope has ended); R5 also requires that pip:run applies the write list after the read list into the same map (a name in both lists ends up write-locked). " +
 			"NOT decided: fairness/starvation of sync.RWMutex, and the actual run-time exclusion (that follows from R2+R3 and sync's contract).",
 	})
 }
@@ -272,6 +273,34 @@ func rulesC15(c *Ctx) {
 			if len(bad) > 0 {
 				ok, why = false, "a return is reachable without Unlock of the handler"
 			}
+			// the resources stay locked until the work the body registered on its scope has ended:
+			// the scope Wait that follows the body lies inside the locked section
+			isScopeWait := func(ci *CallInfo) bool {
+				return ci.Method != nil && ci.Method.Name() == "Wait" && strings.HasSuffix(qualObj(ci.Method), "(Scope).Wait")
+			}
+			var wIn, wOut *CallInfo
+			for _, ci := range Calls(lockFn) {
+				if isScopeWait(ci) && reachableFrom(runC.Instr, ci.Instr) {
+					wIn = ci
+				}
+			}
+			if lockFn != runGo && helperSite != nil {
+				for _, ci := range Calls(runGo) {
+					if isScopeWait(ci) && reachableFrom(helperSite.Instr, ci.Instr) {
+						wOut = ci
+					}
+				}
+			}
+			if wIn == nil && wOut != nil {
+				ok, why = false, "the task's scope is waited for ("+c.pos(wOut.Pos())+") after the helper that holds the lock map has returned and unlocked: work the body registered on its scope still runs while the next holder of the same resource starts"
+			}
+			if wIn != nil {
+				for _, ci := range Calls(lockFn) {
+					if ci.Kind == "call" && ci.Method != nil && ci.Method.Name() == "Unlock" && resolve(ci.Recv()) == lv && reachableFrom(ci.Instr, wIn.Instr) {
+						ok, why = false, "the lock map is released before the task's scope has been waited for"
+					}
+				}
+			}
 			c.Check(ok, "R4", "runner.(*Runner).runGo lock scope", lockC.Pos(), "waitForTasks -> Lock(task.LockMap()) -> body -> Unlock on every path", why)
 		}
 	}
@@ -304,6 +333,32 @@ func rulesC15(c *Ctx) {
 		c.Check(isC && v == want, "R5", "pip:run "+list+" list mode", ci.Pos(), fmt.Sprintf("passed with %v", want), "the "+list+" list is marked with the wrong access mode — readers exclude each other or writers share")
 	}
 	c.Floor("R5", n5, 2)
+	// a name given in both lists must end up write-locked: the read list is applied first, the
+	// write list last (the marker overwrites), i.e. no read marking is reachable after a write marking
+	{
+		var rCalls, wCalls []*CallInfo
+		for _, ci := range CallsTo(runCmd, qualName(mark)) {
+			if v, isC := constBool(ci.Arg(2)); isC {
+				if v == lockRW {
+					wCalls = append(wCalls, ci)
+				} else {
+					rCalls = append(rCalls, ci)
+				}
+			}
+		}
+		bad := ""
+		for _, w := range wCalls {
+			for _, r := range rCalls {
+				if reachableFrom(w.Instr, r.Instr) && Origins(w.Arg(3), FlowOpts{})[0].Val == Origins(r.Arg(3), FlowOpts{})[0].Val {
+					bad = c.pos(r.Pos())
+				}
+			}
+		}
+		if len(wCalls) > 0 && len(rCalls) > 0 {
+			c.Check(bad == "", "R5", "pip:run applies the write list after the read list", wCalls[0].Pos(), "write marking is last",
+				"the read list is marked at "+bad+" after the write list into the same map — a resource named in both lists ends up read-locked, so two tasks that asked to write it hold it together")
+		}
+	}
 	// key of the map update
 	facts := factsFor(mark)
 	nsParam := mark.Params[1]
